@@ -1,6 +1,6 @@
 import FsnVerif.Proofs.InotifyLemmas
 import FsnVerif.Proofs.ALLemmas
-import FsnVerif.Props.C15
+import FsnVerif.Proofs.BridgeEventOp
 /-!
 # C02 — No phantom events (model side)
 
@@ -50,7 +50,7 @@ theorem housekeeping_silent (l : Lib) (env : Env) (r : Raw) (h : r.mask &&& 0xff
   · exfalso
     apply hne
     rw [hop]
-    have := C15.inotify_housekeeping_silent 0#32 r.mask h
+    have := EventOp.inotify_housekeeping_silent 0#32 r.mask h
     simp only [BitVec.zero_or] at this
     rw [Bridge.inotifyNewEventOp_eq, Bridge.inotifyNewEventOp_eq] at this
     rw [this]; decide
